@@ -19,7 +19,7 @@ pub fn run(tier: Tier) -> i32 {
     rep.assume("threshold lattice only; state(frame) derived from DurationEstimator::create through the public API");
     let corpus = labels::corpus();
     let mut utts: Vec<Vec<String>> = vec![vec![corpus[41].clone()], corpus[40..43].to_vec(), corpus[0..3].to_vec()];
-    let stride = tier.pick(211usize, 31usize);
+    let stride = tier.pick(61usize, 7usize);
     for s in ((seed() as usize % stride)..corpus.len() - 8).step_by(stride) {
         utts.push(corpus[s..s + 8].to_vec());
     }
@@ -64,7 +64,7 @@ pub fn run(tier: Tier) -> i32 {
         }
     }
     // base trajectories per (voice, utterance) at the default condition, for the isolation clauses
-    par_for(jobs.len(), 1, |j| {
+    rep.par_for(jobs.len(), 1, "C11 part 1", |j| {
         let (vi, ui, other) = &jobs[j];
         let v = &voices[*vi];
         let u = &utts[*ui];
